@@ -476,7 +476,7 @@ EXPLANATION = (
     "by callee, enclosing handler types, explicit raisers of the handled type inside the guarded region and the owning class. R2: every "
     "h5py.File of the metadata writer is a `with` context; the file-holding generator is exhausted before _write returns. "
     "R3: no reader method other than __init__ stores on self. R4: read_latest = get_bounds + read(last, ffill). R5/R6: the "
-    "forward-fill range filter and numeric key ordering it depends on (shared with C12). Does NOT decide HDF5 visibility.")
+    "forward-fill range filter and numeric key ordering it depends on (shared with C12). R7: every memoising reader method keys its memo by all arguments the memoised value depends on (def-use slice). Does NOT decide HDF5 visibility.")
 TECHNIQUE = ('Python ast; package call graph with provenance partition of paths; context-manager/generator exhaustion; store-on-self table')
 ASSUMPTIONS = ["zip() pulls from its first iterable first", "h5py's default file mode is 'r'",
                "the mutator table (vp.pycalls.MUTATORS) is complete for the standard library calls this package uses"]
